@@ -28,7 +28,21 @@ use std::sync::{Arc, Mutex};
 static CASE_STARTED_CPU: AtomicU64 = AtomicU64::new(u64::MAX);
 /// set while the engine (not the reference) is running: only then is a long case the engine's
 static ENGINE_PHASE: std::sync::atomic::AtomicBool = std::sync::atomic::AtomicBool::new(false);
+/// set while the monitor itself asks the engine something the compiler did not ask (round-trip and
+/// attribution questions): a long case is then undecided for the monitor, not a verdict on the engine
+static MONITOR_QUESTION: std::sync::atomic::AtomicBool = std::sync::atomic::AtomicBool::new(false);
 const LIMIT_MS: u64 = 20_000;
+
+/// the shard's report as JSON, refreshed by the monitor thread every few thousand cases
+static SNAPSHOT: Mutex<Option<String>> = Mutex::new(None);
+/// index (in the random stream) the snapshot was taken before, and the index being run now
+static SNAP_INDEX: AtomicU64 = AtomicU64::new(u64::MAX);
+static CUR_INDEX: AtomicU64 = AtomicU64::new(u64::MAX);
+
+fn arg_after(name: &str) -> Option<String> {
+    let a: Vec<String> = std::env::args().collect();
+    a.iter().position(|x| x == name).and_then(|i| a.get(i + 1).cloned())
+}
 
 struct Watch {
     current: Arc<Mutex<Option<(String, J)>>>,
@@ -50,6 +64,42 @@ impl Watch {
                     let (what, replay) = cur.lock().unwrap().clone().unwrap_or(("?".into(), json!({})));
                     let mut replay = replay;
                     replay["property"] = json!(prop);
+                    if MONITOR_QUESTION.load(Ordering::SeqCst) {
+                        // the engine cannot be interrupted: the process replaces itself by a new one that
+                        // carries on from the last snapshot of the report and leaves the undecided case out
+                        let snap = SNAPSHOT.lock().unwrap().clone();
+                        let snap_i = SNAP_INDEX.load(Ordering::SeqCst);
+                        let cur_i = CUR_INDEX.load(Ordering::SeqCst);
+                        eprintln!("monitor question undecided (stream index {}): {}", cur_i, what);
+                        if let (Some(snap), Some(out), true) = (snap.clone(), args_out.clone(), snap_i != u64::MAX && cur_i != u64::MAX) {
+                            let carry = format!("{}.carry", out);
+                            let _ = std::fs::write(&carry, snap);
+                            let mut skips: Vec<String> = arg_after("--skip").map(|s| s.split(',').map(String::from).collect()).unwrap_or_default();
+                            skips.push(cur_i.to_string());
+                            if skips.len() <= 40 {
+                                use std::os::unix::process::CommandExt;
+                                let err = std::process::Command::new(std::env::current_exe().unwrap())
+                                    .args([prop.as_str(), "--seed", &seed.to_string(), "--tier", &tier, "--shard", &shard.to_string(), "--of", &of.to_string(), "--out", &out])
+                                    .args(["--resume-from", &snap_i.to_string(), "--skip", &skips.join(","), "--carry", &carry])
+                                    .exec();
+                                eprintln!("could not restart the shard: {}", err);
+                            }
+                        }
+                        let mut v: J = snap.and_then(|s| serde_json::from_str(&s).ok()).unwrap_or_else(|| json!({
+                            "prop": prop, "seed": seed, "tier": tier, "shard": shard, "of": of,
+                            "evaluations": 0, "distinct": [], "samples": [], "counters": {}, "inconclusive": {}, "aux": {}, "violations": [], "wall_s": 0.0, "error": J::Null,
+                        }));
+                        let k = format!("monitor-question-undecided-within-{}s-cpu:shard-stopped-early", LIMIT_MS / 1000);
+                        let n = v["inconclusive"][&k].as_u64().unwrap_or(0) + 1;
+                        v["inconclusive"][&k] = json!(n);
+                        v["partial"] = json!(true);
+                        if let Some(p) = &args_out {
+                            let _ = std::fs::write(p, v.to_string());
+                        } else {
+                            println!("{}", v);
+                        }
+                        std::process::exit(0);
+                    }
                     let in_engine = ENGINE_PHASE.load(Ordering::SeqCst);
                     let sig = if in_engine { format!("no-decision-within-{}s-cpu", LIMIT_MS / 1000) } else { "reference-too-slow".to_string() };
                     replay["signature"] = json!(sig);
@@ -76,6 +126,13 @@ impl Watch {
     }
     fn end(&self) {
         CASE_STARTED_CPU.store(u64::MAX, Ordering::SeqCst);
+        MONITOR_QUESTION.store(false, Ordering::SeqCst);
+    }
+    /// like begin, for questions the monitor makes up (see MONITOR_QUESTION)
+    fn begin_monitor_question(&self, what: String, replay: J) {
+        *self.current.lock().unwrap() = Some((what, replay));
+        MONITOR_QUESTION.store(true, Ordering::SeqCst);
+        CASE_STARTED_CPU.store(bvh::thread_cpu_ms(), Ordering::SeqCst);
     }
 }
 
@@ -673,7 +730,7 @@ fn c05(args: &Args, rep: &mut Report, w: &Watch) {
     }
 
     // (ii) random pairs with named recursive definitions, (iii) near pairs, relational pairs
-    let n = rep.share(120_000, 4_000_000);
+    let n = rep.share(360_000, 4_000_000);
     for i in 0..n {
         let mut rng = Rng::new(args.seed, &format!("c05|{}|{}", args.shard, i));
         let ndefs = if rng.chance(1, 2) { 1 + rng.below(3) } else { 0 };
@@ -977,7 +1034,7 @@ fn c06_layer1(args: &Args, rep: &mut Report) {
         let mut seen: HashMap<Bdd, ()> = pool.iter().map(|b| ((**b).clone(), ())).collect();
         let mut tables_seen: BTreeSet<u16> = BTreeSet::new();
         let mut rng = Rng::new(args.seed, &format!("c06-l1|{}|{}", args.shard, mixed));
-        let budget_ops = rep.share(8_000_000, 240_000_000) / 2;
+        let budget_ops = rep.share(24_000_000, 240_000_000) / 2;
         let max_pool = if rep.quick() { 6_000 } else { 60_000 };
         let mut ops_done = 0u64;
         // breadth-first while the pool is small, then random pairs
@@ -1087,7 +1144,7 @@ fn probe_values(a: &Runtype, b: &Runtype, defs: &Defs) -> Vec<Value> {
 }
 
 fn c06_layer2(args: &Args, rep: &mut Report, w: &Watch) {
-    let n = rep.share(160_000, 5_000_000);
+    let n = rep.share(480_000, 5_000_000);
     for i in 0..n {
         let mut rng = Rng::new(args.seed, &format!("c06-l2|{}|{}", args.shard, i));
         let ndefs = if rng.chance(1, 3) { 1 + rng.below(2) } else { 0 };
@@ -1425,6 +1482,7 @@ fn c07_case(rep: &mut Report, w: &Watch, a: &Runtype, b: &Runtype, defs: &[Named
             rt_defs.push(NamedSchema { name: name.clone(), schema: mat.head.clone() });
         }
         let refs3: Vec<&NamedSchema> = rt_defs.iter().collect();
+        w.begin_monitor_question(format!("round trip of the materialised type, {} of\n{}", op, case_show(&c)), replay.clone());
         let back = guard(|| {
             let again = mat.head.to_sem_type(&refs3, &mut ctx)?;
             // the "property is missing" marker is not a value: it is materialised as `undefined`
@@ -1436,6 +1494,7 @@ fn c07_case(rep: &mut Report, w: &Watch, a: &Runtype, b: &Runtype, defs: &[Named
             let allowed = if has_marker { t2.union(&Rc::new(SemTypeContext::undefined()))? } else { t2.clone() };
             Ok((again2.is_subtype(&allowed, &mut ctx)?, t2.is_subtype(&again2, &mut ctx)?))
         });
+        w.end();
         match back {
             Eng::Ok((le, ge)) => {
                 rep.judged(1);
@@ -1555,7 +1614,17 @@ fn c07_case(rep: &mut Report, w: &Watch, a: &Runtype, b: &Runtype, defs: &[Named
                             // partly covered, handing that one on whole explains the value)
                             let owners: Vec<Runtype> = members.iter().filter(|m| matches!(rm::rt_exact(m, &dm, &v), Ok(true))).cloned().collect();
                             if owners.is_empty() {
-                                "|cause:undecided"
+                                // the value is no exact value of the left operand at all (it carries keys the
+                                // left operand does not declare): when the excluded type is an intersection,
+                                // S & Not<A & B> is normalised to (A & S & Not<B>) | (S & Not<A>), the positive
+                                // A is merged into S's record and survives when the negations are dropped
+                                // (same root as C05-right-intersection-split-across-sides)
+                                let b_has_intersection = has_kind(b, &|k| matches!(k, RuntypeKind::AllOf(_))) || defs.iter().any(|d| has_kind(&d.schema, &|k| matches!(k, RuntypeKind::AllOf(_))));
+                                if b_has_intersection && matches!(rm::rt_open(a, &dm, &v), Ok(true)) {
+                                    "|cause:member-of-the-excluded-intersection-merged-into-the-left-operand"
+                                } else {
+                                    "|cause:undecided"
+                                }
                             } else {
                                 let refs4: Vec<&NamedSchema> = vals_defs.iter().collect();
                                 let mut all_assignable = true;
@@ -1609,6 +1678,21 @@ fn c07_case(rep: &mut Report, w: &Watch, a: &Runtype, b: &Runtype, defs: &[Named
 }
 
 fn c07(args: &Args, rep: &mut Report, w: &Watch) {
+    // a restarted shard (see Watch): the report so far is carried over, the grids are not run again
+    let resume_from: Option<u64> = arg_after("--resume-from").and_then(|s| s.parse().ok());
+    let skips: BTreeSet<u64> = arg_after("--skip").map(|s| s.split(',').filter_map(|x| x.parse().ok()).collect()).unwrap_or_default();
+    if let (Some(_), Some(path)) = (resume_from, arg_after("--carry")) {
+        let v: J = serde_json::from_str(&std::fs::read_to_string(&path).expect("carry file")).expect("carry json");
+        rep.load_carry(&v);
+        let _ = std::fs::remove_file(&path);
+    }
+    if resume_from.is_none() {
+        c07_grids(args, rep, w);
+    }
+    c07_stream(args, rep, w, resume_from.unwrap_or(0), &skips);
+}
+
+fn c07_grids(args: &Args, rep: &mut Report, w: &Watch) {
     // containers next to named types: Map / Set / list / object members, named and inline, in every
     // order of conversion (the atoms of the four kinds are numbered separately; a computed type has
     // to come back with each atom under its own kind). Judged by the engine's round trip and the
@@ -1663,8 +1747,28 @@ fn c07(args: &Args, rep: &mut Report, w: &Watch) {
             }
         }
     }
-    let n = rep.share(400_000, 12_000_000);
-    for i in 0..n {
+    // probes: one recorded case per known finding that the random streams do not always reach
+    if args.shard == 0 {
+        for text in [include_str!("../../probes/c07_excluded_intersection_member_merged.json")] {
+            let c: J = serde_json::from_str(text).expect("probe json");
+            c07_case(rep, w, &tgen::from_json(&c["a"]), &tgen::from_json(&c["b"]), &tgen::defs_from_json(&c["defs"]), c["op"].as_str().unwrap(), false);
+            rep.count("probes", 1);
+        }
+    }
+}
+
+fn c07_stream(args: &Args, rep: &mut Report, w: &Watch, from: u64, skips: &BTreeSet<u64>) {
+    let n = rep.share(1_200_000, 12_000_000);
+    for i in from..n {
+        if i % 2000 == 0 || i == from {
+            *SNAPSHOT.lock().unwrap() = Some(rep.snapshot());
+            SNAP_INDEX.store(i, Ordering::SeqCst);
+        }
+        if skips.contains(&i) {
+            rep.inconclusive("monitor-question-undecided-within-20s-cpu:case-left-out");
+            continue;
+        }
+        CUR_INDEX.store(i, Ordering::SeqCst);
         let mut rng = Rng::new(args.seed, &format!("c07|{}|{}", args.shard, i));
         let ndefs = if rng.chance(2, 5) { 1 + rng.below(3) } else { 0 };
         let rng_any = rng.chance(1, 6);
